@@ -178,14 +178,50 @@ def check_ext(ctx, k, gsize, minus, ibits, signed, known_id=None, known_stride=N
     ctx.expect(paths, ret=1, abort=1)
 
 
+def check_bm_arith(ctx, k, gsize, ibits, signed):
+    from specs.C04 import bm_pre
+    bs, order, destroy, dead, size = bm_pre(ctx)
+    p = ctx.sym("p", 64)
+    owner = [z3.And(ctx.in_region(p, bs[i], size), z3.Not(dead(i))) for i in range(3)]
+    ctx.assume(z3.Or(*owner))
+    ob = z3.If(owner[0], bs[0], z3.If(owner[1], bs[1], bs[2]))
+    n = ctx.sym("n", ibits)
+    N = ext(n, signed)
+    E = zext(p, 128) + N * gsize
+    B = zext(ob, 128)
+    inside = z3.And(E >= B, E < B + size)
+    paths = ctx.run(k, [bs[0], bs[1], bs[2], order, destroy, p, n])
+    for q in paths:
+        if q.status == "ret":
+            ctx.require(q, z3.And(inside, zext(q.ret, 128) == E), "returns only when the exact address is inside p's sandbox, and returns exactly it")
+        elif q.status == "abort":
+            ctx.require(q, z3.Not(inside), "aborts only when the exact address is outside p's sandbox, whatever sandboxes were created and destroyed before")
+    ctx.only(paths, "ret", "abort")
+    ctx.expect(paths, ret=6, abort=6)
+
+
 def jobs(tier, seed):
     out = []
+    out.append(Job("C05_BM_idx", '#include "C05_bm.inc"\n',
+                   [dict(name="BM k_bm_idx", fn=check_bm_arith, kw=dict(k="k_bm_idx", gsize=2, ibits=32, signed=False))], unwind=200, native=False))
+    if tier == "thorough":
+        out.append(Job("C05_BM_add", '#include "C05_bm.inc"\n',
+                       [dict(name="BM k_bm_add", fn=check_bm_arith, kw=dict(k="k_bm_add", gsize=4, ibits=64, signed=True))], unwind=200, native=False))
     ext_checks = [("k_add_enuml", dict(gsize=4, minus=False, ibits=64, signed=True, known_id="C05-enum-abi-stride", known_stride=8)),
                   ("k_add_enumi", dict(gsize=4, minus=False, ibits=64, signed=True)),
                   ("k_sub_enumi", dict(gsize=4, minus=True, ibits=32, signed=False)),
                   ("k_add_int_u128", dict(gsize=4, minus=False, ibits=128, signed=False)),
                   ("k_sub_int_s128", dict(gsize=4, minus=True, ibits=128, signed=True)),
                   ("k_idx_long_s128", dict(gsize=4, minus=False, ibits=128, signed=True))]
+    # configuration: the embedder asks for exceptions (RLBOX_USE_EXCEPTIONS) but the TU is built with -fno-exceptions:
+    # a failed check must still end the operation
+    csrc = [C.PRELUDE, '#include "verif_structs.hpp"', "using S = B32;"]
+    cchk = []
+    for op, ptag, pcxx, gsize, itag in (("add", "int", "int", 4, "long"), ("sub", "vs24", "VS24", 12, "int"), ("idx", "long", "long", 4, "ullong"), ("preinc", "short", "short", 2, None)):
+        csrc.append(kernel_src(op, ptag, pcxx, itag))
+        cchk.append(dict(name="B32 RLBOX_USE_EXCEPTIONS+-fno-exceptions %s %s idx=%s" % (op, ptag, itag), fn=check_arith,
+                         kw=dict(op=op, ptag=ptag, gsize=gsize, itag=itag, log=32)))
+    out.append(Job("C05_B32_cfg_noexc", "\n".join(csrc) + "\n", cchk, flags=["-fno-exceptions", "-DRLBOX_USE_EXCEPTIONS"]))
     out.append(Job("C05_B32_ext", C.PRELUDE + "using S = B32;\n" + EXT_SRC,
                    [dict(name="B32 " + k, fn=check_ext, kw=dict(k=k, **kw)) for k, kw in ext_checks], flags=["-fno-exceptions", "-std=gnu++17"], native=False))
     backends = [("B32", 32, 4)] + ([("B16", 16, 2)] if tier == "thorough" else [])
